@@ -1069,19 +1069,179 @@ static void run_obj(int index, const std::string* rp = 0, std::string* rerr = 0)
     if (index == 4) { std::string al; for (auto& n : OW->names) al += n + " "; R.info["wpa2_object_alphabet"] = jstr(al); }
 }
 
+
+// ================================================================== part 4: ordered pairs (value relations inside one handshake)
+// The PTK derivation puts min(AA, SPA) | max(AA, SPA) | min(ANonce, SNonce) | max(ANonce, SNonce), by lexicographic comparison of
+// all 6 resp. 32 octets as unsigned values.  Family: nonce pairs that are equal everywhere except at ONE octet position
+// p in {0, 1, 15, 16, 17, 30, 31} (values across the sign boundary 7f/80 and at the extremes 00/ff, both orders), pairs differing at
+// two positions with contradicting orders (the first difference decides), the equal pair; the same for the (BSSID, station)
+// address pair over positions 0..5; full cross product x {CCMP, TKIP} x {Data, QoS Data}.  Per case, on a copy of a decrypter that
+// knows passphrase + SSID: beacon of the case's BSSID, handshake generation 1 (the pair as given), data frames under PTK1 in both
+// directions; then generation 2 (the relation at the same position REVERSED, fresh other octets) and data frames under PTK2.
+struct NoncePair { uint8_t a[32], s[32]; std::string name; };
+struct AddrPair { uint8_t aa[6], spa[6]; std::string name; };
+static std::vector<NoncePair> nonce_pairs(uint32_t seed) {
+    std::vector<NoncePair> v;
+    uint8_t base[32];
+    uint32_t s = seed;
+    for (int i = 0; i < 32; ++i) base[i] = (uint8_t)lcg(s);
+    auto mk = [&](const std::string& n) { NoncePair p; memcpy(p.a, base, 32); memcpy(p.s, base, 32); p.name = n; return p; };
+    const int pos[] = {0, 1, 15, 16, 17, 30, 31};
+    const uint8_t val[2][2] = {{0x7f, 0x80}, {0x00, 0xff}};
+    for (int p : pos) for (int vi = 0; vi < 2; ++vi) for (int order = 0; order < 2; ++order) {
+        NoncePair np = mk("p" + str(p) + (vi ? "_00ff" : "_7f80") + (order ? "_a>s" : "_a<s"));
+        np.a[p] = val[vi][order]; np.s[p] = val[vi][1 - order];
+        v.push_back(np);
+    }
+    // two differences with contradicting orders: the earlier position decides
+    const int two[][2] = {{0, 31}, {15, 16}, {16, 31}, {1, 17}};
+    for (auto& t : two) for (int order = 0; order < 2; ++order) {
+        NoncePair np = mk("p" + str(t[0]) + "vs" + str(t[1]) + (order ? "_a>s" : "_a<s"));
+        np.a[t[0]] = order ? 0x80 : 0x7f; np.s[t[0]] = order ? 0x7f : 0x80;
+        np.a[t[1]] = order ? 0x00 : 0xff; np.s[t[1]] = order ? 0xff : 0x00;
+        v.push_back(np);
+    }
+    v.push_back(mk("equal"));
+    return v;
+}
+static std::vector<AddrPair> addr_pairs() {
+    std::vector<AddrPair> v;
+    const uint8_t base[6] = {0x02, 0x1a, 0x90, 0x3c, 0xe4, 0x5e};
+    auto mk = [&](const std::string& n) { AddrPair p; memcpy(p.aa, base, 6); memcpy(p.spa, base, 6); p.name = n; return p; };
+    for (int q = 0; q < 6; ++q) for (int vi = 0; vi < 2; ++vi) for (int order = 0; order < 2; ++order) {
+        // octet 0 keeps the group bit clear (these are individual addresses)
+        uint8_t lo = vi ? 0x00 : (q == 0 ? 0x7e : 0x7f), hi = vi ? (q == 0 ? 0xfe : 0xff) : 0x80;
+        AddrPair ap = mk("q" + str(q) + (vi ? "_00ff" : "_7f80") + (order ? "_aa>spa" : "_aa<spa"));
+        ap.aa[q] = order ? hi : lo; ap.spa[q] = order ? lo : hi;
+        v.push_back(ap);
+    }
+    v.push_back(mk("equal"));
+    return v;
+}
+static std::vector<Bytes> handshake_frames(bool ccmp, bool qos, const uint8_t* aa, const uint8_t* spa, const uint8_t* an, const uint8_t* sn,
+                                           const Bytes& ptk, uint64_t rc) {
+    const uint8_t snap_eapol[8] = {0xaa, 0xaa, 0x03, 0x00, 0x00, 0x00, 0x88, 0x8e};
+    int ver = ccmp ? 2 : 1; uint16_t keylen = ccmp ? 16 : 32;
+    Bytes kd; for (int k = 0; k < 24; ++k) kd.push_back(uint8_t(0x30 + k));
+    Bytes m[4];
+    m[0] = eapol_key(ver, uint16_t(0x0088 | ver), keylen, rc, an, Bytes(), 0);
+    m[1] = eapol_key(ver, uint16_t(0x0108 | ver), keylen, rc, sn, kd, &ptk[0]);
+    m[2] = eapol_key(ver, uint16_t(0x13c8 | ver), keylen, rc + 1, an, kd, &ptk[0]);
+    m[3] = eapol_key(ver, uint16_t(0x0308 | ver), keylen, rc + 1, 0, Bytes(), &ptk[0]);
+    std::vector<Bytes> out;
+    for (int k = 0; k < 4; ++k) {
+        Bytes pl(snap_eapol, snap_eapol + 8);
+        pl.insert(pl.end(), m[k].begin(), m[k].end());
+        bool to_ds = k == 1 || k == 3;
+        out.push_back(data_frame(to_ds ? aa : spa, to_ds ? spa : aa, aa, to_ds, qos, pl, false));
+    }
+    return out;
+}
+static Crypto::WPA2Decrypter& pairs_base() {
+    static Crypto::WPA2Decrypter* d = 0;
+    if (!d) { d = new Crypto::WPA2Decrypter(); d->add_ap_data(PSK, SSID); }
+    return *d;
+}
+static uint64_t n_pair_cases = 0, n_pair_frames = 0, n_pair_events = 0;
+static std::string pairs_case_str(bool ccmp, bool qos, int ni, int ai) {
+    return "mode=pairs ccmp=" + str((int)ccmp) + " qos=" + str((int)qos) + " npair=" + str(ni) + " apair=" + str(ai);
+}
+static std::string eval_pairs(bool ccmp, bool qos, int ni, int ai) {
+    std::vector<NoncePair> g1 = nonce_pairs(0xA11CEu), g2 = nonce_pairs(0xB0Bu);
+    std::vector<AddrPair> aps = addr_pairs();
+    if (ni < 0 || ni >= (int)g1.size() || ai < 0 || ai >= (int)aps.size()) return "harness:no-such-pair|";
+    const AddrPair& ap = aps[ai];
+    const uint8_t peer[6] = {0x00, 0x21, 0x6a, 0x10, 0x20, 0x30};
+    Crypto::WPA2Decrypter d(pairs_base());
+    std::string site = "pairs:";
+    Mon::reset();
+    auto feed = [&](const Bytes& f) -> std::string {
+        Out o = run_decrypt(d, f);
+        ++n_pair_events;
+        if (o.ret == 3) return "harness:event-frame-did-not-parse|";
+        if (o.ret != 0) return site + "unprotected-frame-reported-decrypted-or-exception|ret=" + str(o.ret) + " " + o.exc;
+        return "";
+    };
+    std::string e = feed(beacon_frame(ap.aa, SSID, true));
+    if (!e.empty()) return e;
+    Bytes plain = plaintext(30 + (ni % 7), ni);
+    for (int gen = 0; gen < 2; ++gen) {
+        // generation 2 reverses the relation of generation 1 at the same position (the a<s / a>s variants are neighbours in the list)
+        const NoncePair& np = gen == 0 ? g1[ni] : g2[(ni ^ 1) < (int)g2.size() && g1[ni].name != "equal" ? (ni ^ 1) : ni];
+        Bytes ptk = c09::ptk512(pmk(), ap.aa, ap.spa, np.a, np.s);
+        std::vector<Bytes> hs = handshake_frames(ccmp, qos, ap.aa, ap.spa, np.a, np.s, ptk, gen ? 9 : 1);
+        for (size_t k = 0; k < hs.size(); ++k) { e = feed(hs[k]); if (!e.empty()) return e; }
+        std::string what = "generation " + str(gen + 1) + " nonces " + np.name + " addresses " + ap.name;
+        const Crypto::WPA2Decrypter::keys_map& km = d.get_keys();
+        HWAddress<6> a = hw(ap.aa), b = hw(ap.spa);
+        Crypto::WPA2Decrypter::keys_map::const_iterator it = km.find(a < b ? std::make_pair(a, b) : std::make_pair(b, a));
+        if (it == km.end()) return site + "no-keys-after-valid-handshake|" + what;
+        size_t n = ccmp ? 48 : 64;
+        if (it->second.get_ptk().size() < n || !std::equal(ptk.begin(), ptk.begin() + n, it->second.get_ptk().begin()))
+            return site + "stored-ptk-differs-from-reference|" + what;
+        for (int from = 0; from < 2; ++from) {
+            Bytes f = protected_data_frame(ccmp ? CCMP : TKIP, qos, !from, ap.spa, ap.aa, peer, ptk, 0x10 + gen * 4 + from, plain);
+            Out o = run_decrypt(d, f);
+            ++n_pair_frames;
+            if (o.ret != 1) return site + "data-frame-not-decrypted|" + what + (from ? " FromDS" : " ToDS") + " ret=" + str(o.ret) + " " + o.exc;
+            if (o.prot || !o.snap || o.rec != plain) return site + "decrypted-output-differs-from-plaintext|" + what;
+        }
+        R.dist("distinct_nontrivial", fnv(ptk.data(), ptk.size()));
+    }
+    if (Mon::errors) return Mon::first + "|" + Mon::first_detail;
+    ++n_pair_cases;
+    return "";
+}
+static const int NPAIRJOBS = 4;    // {CCMP, TKIP} x {Data, QoS Data}
+static void run_pairs_job(int k) {
+    bool ccmp = (k & 1) == 0, qos = (k & 2) != 0;
+    int nn = (int)nonce_pairs(1).size(), na = (int)addr_pairs().size();
+    uint64_t idx = 0;
+    for (int ni = 0; ni < nn; ++ni)
+        for (int ai = 0; ai < na; ++ai) {
+            uint64_t my = idx++;
+            if (skipped(my)) { R.flags["exhaustive"] = false; continue; }
+            if (deadline_reached()) { R.flags["exhaustive"] = false; return; }
+            std::string cs = pairs_case_str(ccmp, qos, ni, ai);
+            set_case(my, "pairs", cs);
+            std::string err;
+            try { err = eval_pairs(ccmp, qos, ni, ai); }
+            catch (std::exception& e) { err = std::string("exc:") + typeid(e).name() + ":pairs|" + e.what(); }
+            record(err, cs);
+        }
+    R.count("ordered_pair_cases", n_pair_cases); R.count("ordered_pair_data_frames_decrypted", n_pair_frames);
+    R.count("ordered_pair_event_frames", n_pair_events);
+    R.maxv("ordered_pair_nonce_pairs", nn); R.maxv("ordered_pair_address_pairs", na);
+    n_pair_cases = n_pair_frames = n_pair_events = 0;
+    if (k == 0) {
+        std::string names;
+        for (auto& p : nonce_pairs(1)) names += p.name + " ";
+        R.info["ordered_nonce_pairs"] = jstr(names);
+    }
+}
+
 int main(int argc, char** argv) {
     std::string st = c09::selftest();
     if (!st.empty()) { fprintf(stderr, "reference self-test failed: %s\n", st.c_str()); return 2; }
-    return run_main(argc, argv, NF + 16 + NOBJ, NF + 32 + NOBJ,
+    return run_main(argc, argv, NF + 16 + NOBJ + NPAIRJOBS, NF + 32 + NOBJ + NPAIRJOBS,
         [](int job) {
             int nh = A.thorough() ? 32 : 16;
             if (job < NF) run_frames_job(job);
             else if (job < NF + nh) run_hs(job - NF);
-            else run_obj(job - NF - nh);
+            else if (job < NF + nh + NOBJ) run_obj(job - NF - nh);
+            else run_pairs_job(job - NF - nh - NOBJ);
         },
         [](const std::string& kase) -> int {
             auto kv = parse_kv(kase);
             if (kv.count("tier")) A.tier = kv["tier"];
+            if (kv["mode"] == "pairs") {
+                std::string err;
+                try { err = eval_pairs(atoi(kv["ccmp"].c_str()) != 0, atoi(kv["qos"].c_str()) != 0, atoi(kv["npair"].c_str()), atoi(kv["apair"].c_str())); }
+                catch (std::exception& e) { err = std::string("exc:") + typeid(e).name() + ":pairs|" + e.what(); }
+                if (!err.empty()) { printf("violation reproduced: %s\n", err.c_str()); return 1; }
+                printf("case replayed, oracle holds\n");
+                return 0;
+            }
             if (kv["mode"] == "hs" || kv["mode"] == "obj") {
                 std::string err, ops = kv["ops"];
                 if (kv["mode"] == "hs") run_hs(atoi(kv["cfg"].c_str()), &ops, &err);
